@@ -145,7 +145,7 @@ def _replay_group(cases):
                 return dict(harness_error=traceback.format_exc() + '\ncase: ' + json.dumps(c))
             out.append(('done', fail, ok))
     rp.stats['cut_label_not_judged'] += len(c10_replay.RELABEL_NOTES) - n0
-    return dict(res=out, stats=rp.stats)
+    return dict(res=out, stats=rp.stats, unsupported=rp.unsupported)
 
 
 def generate(rep, jobs, rng, limit):
@@ -231,12 +231,14 @@ def replay(rep, cases, preds, budget):
     with ctx.Pool(NPROC) as pool:
         outs = pool.map(_replay_group, tasks, chunksize=1)
     stats = collections.Counter()
+    unsupported = collections.Counter()
     skipped = 0
     opcount = collections.Counter()
     for task, out in zip(tasks, outs):
         if 'harness_error' in out:
             raise RuntimeError(out['harness_error'])
         stats.update(out['stats'])
+        unsupported.update(out.get('unsupported', {}))
         for c, (status, fail, ok) in zip(task, out['res']):
             if status == 'skipped':
                 skipped += 1
@@ -251,6 +253,7 @@ def replay(rep, cases, preds, budget):
     if skipped:
         rep.skip('behaviours not replayed within the time budget', skipped)
     rep.extra['replayed'] = dict(stats)
+    rep.extra['unsupported_not_judged'] = dict(unsupported)
     rep.extra['operations_replayed'] = dict(opcount)
     rep.lap('replay')
 
